@@ -108,7 +108,8 @@ StScheme(s, c) ==
   ELSE IF c = 58 THEN
     IF Ov(s) /\ (\/ Sp(s) # IsSpecialO(s.opts, s.buf)
                  \/ ((HasCreds(s.u) \/ IsSome(s.u.port)) /\ s.buf = FILE)
-                 \/ (s.u.scheme = FILE /\ s.u.host = Some(<<>>)))
+                 \/ (s.u.scheme = FILE /\ (s.u.host = Some(<<>>) \/ s.u.host = None)))   \* "empty host or null": null is unreachable under
+                                                                                       \* the default table (a file URL always has a host)
     THEN Ret(s)
     ELSE LET u1 == [s.u EXCEPT !.scheme = s.buf] IN
       IF Ov(s) THEN Ret([s EXCEPT !.u = CleanPort(s.opts, u1)])
